@@ -399,9 +399,17 @@ def apply_op(m, op):
             f(d, r)
         return None
     if k == "predict":
-        return canon(m.predict(_enc_query(m, op)) if op.get("X") is not None else m.predict())
+        res = m.predict(_enc_query(m, op)) if op.get("X") is not None else m.predict()
+        out = canon(res)
+        if op.get("scribble") and isinstance(res, list):
+            res.clear()
+        return out
     if k == "predict_expectations":
-        return canon(m.predict_expectations(_enc_query(m, op)) if op.get("X") is not None else m.predict_expectations())
+        res = m.predict_expectations(_enc_query(m, op)) if op.get("X") is not None else m.predict_expectations()
+        out = canon(res)
+        if op.get("scribble"):
+            scribble(res)
+        return out
     if k == "add_arm":
         b = op.get("binarizer")
         if b is not None:
@@ -425,6 +433,20 @@ def apply_op(m, op):
     if k == "arms":
         return canon(list(m.arms))
     raise ValueError(k)
+
+
+def scribble(res):
+    """the caller owns what a query returned and may do anything with it: overwrite every value, add and delete keys"""
+    rows = res if isinstance(res, list) else [res]
+    for r in rows:
+        if isinstance(r, dict):
+            for k in list(r):
+                r[k] = -777.0
+            r["__scribbled__"] = 1
+            if len(r) > 2:
+                del r[next(iter(r))]
+    if isinstance(res, list):
+        res.append("__scribbled__")
 
 
 def run_ops(m, ops, stop_on_exc=False):
